@@ -37,6 +37,7 @@ type raceRec struct {
 	order  []interface{}
 	seen   map[string]bool
 	nAcc   int
+	nextThread int
 }
 
 func (fr *frame) inHarnessCode() bool {
@@ -74,13 +75,24 @@ func (fr *frame) raceNote(loc interface{}, write bool, what string) {
 	if r == nil || !r.active || !r.shared[loc] {
 		return
 	}
-	if fr.inHarnessCode() {
-		return
-	}
-	pos := ""
-	if fr.curInstr != nil && fr.curInstr.Pos() != token.NoPos {
-		ps := fr.fn.Prog.Fset.Position(fr.curInstr.Pos())
-		pos = fmt.Sprintf("%s:%d", ps.Filename, ps.Line)
+	// position: the innermost frame that lies in the repository (an access made inside a dependency is attributed
+	// to the call site in the code under analysis, the way the race reports are read)
+	pos, inFn := "", fr.fn.String()
+	for f := fr; f != nil; f = f.caller {
+		if f.curInstr == nil || f.curInstr.Pos() == token.NoPos {
+			continue
+		}
+		ps := f.fn.Prog.Fset.Position(f.curInstr.Pos())
+		if pos == "" {
+			pos = fmt.Sprintf("%s:%d", ps.Filename, ps.Line)
+		}
+		if strings.HasPrefix(ps.Filename, "/repo/") {
+			if base := filepath.Base(ps.Filename); strings.HasPrefix(base, "zz_verif") || strings.HasPrefix(base, "zz_gosym") || strings.Contains(ps.Filename, "/testing/") {
+				return // made by harness code or by the repository's test doubles (or by a dependency on their behalf)
+			}
+			pos, inFn = fmt.Sprintf("%s:%d", ps.Filename, ps.Line), f.fn.String()
+			break
+		}
 	}
 	locks := fr.p.heldBy(fr.p.thread)
 	var names []string
@@ -96,7 +108,7 @@ func (fr *frame) raceNote(loc interface{}, write bool, what string) {
 	if _, ok := r.acc[loc]; !ok {
 		r.order = append(r.order, loc)
 	}
-	r.acc[loc] = append(r.acc[loc], raceAccess{thread: fr.p.thread, write: write, locks: locks, pos: pos, fn: fr.fn.String(), what: what})
+	r.acc[loc] = append(r.acc[loc], raceAccess{thread: fr.p.thread, write: write, locks: locks, pos: pos, fn: inFn, what: what})
 	r.nAcc++
 }
 
@@ -246,10 +258,7 @@ func protectedPair(a, b raceAccess) bool {
 }
 
 func shortPos(pos string) string {
-	if i := strings.Index(pos, "/pkg/"); i >= 0 {
-		return pos[i+1:]
-	}
-	return pos
+	return strings.TrimPrefix(pos, "/repo/")
 }
 
 func (r *raceRec) candidates() []RaceCandidate {
